@@ -23,7 +23,7 @@ TRUSTED = ['TLC', 'SphereLattice.tla', 'GeodSym.tla', 'GeodOverloads.tla', 'drv_
 
 
 def run(ctx):
-    geod_common.run(ctx, 'C03', ['dir', 'inv', 'ell'], [('dl', 8000, 400000), ('dx', 3000, 100000), ('il', 6000, 300000), ('ix', 3000, 100000), ('al', 10000, 500000), ('ax', 3000, 100000)])
+    geod_common.run(ctx, 'C03', ['dir', 'inv', 'ell'], [('dl', 8000, 250000), ('dx', 3000, 60000), ('il', 6000, 200000), ('ix', 3000, 60000), ('al', 10000, 300000), ('ax', 3000, 60000)])
     return ctx.finish(RULE, TRUSTED)
 
 
